@@ -1,7 +1,8 @@
 import GlmVerif.Spec.C02
-import GlmVerif.Gen.C02
-/-! table check of family `asgadd_s` against the model generated from /repo (kernel evaluation) -/
+import GlmVerif.Gen.C02.asgadd_s
+/-! table check of family `asgadd_s` against the model of its units generated from /repo (kernel evaluation) -/
 namespace Glm.Props.C02
 open Glm Glm.Spec.C02 Glm.Gen.C02
-theorem asgadd_s_ok : f_asgadd_s.ok lookup = true := by decide +kernel
+set_option maxHeartbeats 4000000 in
+theorem asgadd_s_ok : f_asgadd_s.ok (fun _ ks => asgadd_s_L ks) = true := by decide +kernel
 end Glm.Props.C02
